@@ -38,6 +38,7 @@ MARKER_TABLE = [
     ("# see nocl", False, "mentions-later"), ("// this is not nocl", False, "mentions-later"), ("/* x nocl */", False, "mentions-later"),
     ("# foo # nocl", False, "mentions-later"), ("// bar // nocl", False, "mentions-later"), ("/* a /* nocl */", False, "mentions-later"),
     ("# x; nocl", False, "mentions-later"),
+    ("# // nocl", False, "mentions-later"), ("#; nocl", False, "mentions-later"), ("# /* nocl */", False, "mentions-later"), ("// /* nocl */", False, "mentions-later"),
     ("# TODO", False, "other"), ("#", False, "empty"), ("// no cl", False, "other"), ("# nolc", False, "other"),
 ]
 
@@ -45,25 +46,13 @@ MARKER_TABLE = [
 def rule_R1_evaluated(ctx, prj):
     """the marker predicate evaluated over classes of comment text (leader x spacing x case x position of the marker)"""
     from ..absint import MiniInterp, PyRaise, Unknown
-    from ..patterns import AToken, Interp, Unsupported
+    from ..absint import make_token
     fi = prj.func(f"{SU}:filter_nocl_comment_tokens")
-    interp = Interp(prj)
-
-    def hook(it, kind, f, args, kwargs, node, cur):
-        if kind == "getattr" and isinstance(f, AToken):
-            if args == "value":
-                return f.value
-            return ("atoken", f, args)
-        if kind == "call" and isinstance(f, tuple) and f and f[0] == "atoken":
-            try:
-                return interp.call_method(f[1], f[2], list(args))
-            except Unsupported as e:
-                raise Unknown(str(e))
-        return NotImplemented
 
     def qualifies(kind_, text):
-        tok = AToken(kind_, text)
-        res = MiniInterp(prj, hook).call(fi, [[tok]], {})
+        it = MiniInterp(prj)
+        tok = make_token(it, prj, kind_, text)
+        res = it.call(fi, [[tok]], {})
         res = list(res.rest()) if hasattr(res, "rest") else list(res)
         if len(res) > 1 or (res and res[0] is not tok):
             raise Unknown("result is neither [] nor [t]")
@@ -410,6 +399,8 @@ def run(ctx, prj: Project):
     ctx.not_decided = ["every other function keeps its name, span and length for all programs (inherits C01's main clause)"]
     ctx.trust("CPython ast", "str.startswith/lower/strip semantics")
     rule_R1(ctx, prj)
-    res = rule_R2(ctx, prj)
-    rule_R3(ctx, prj)
-    rule_R4(ctx, prj, res)
+    from . import c01
+    if not c01.rule_R5_pipeline(ctx, prj, rid="R5", clauses={"functions", "reported-twice", "length", "span-start", "span-end", "order"}):
+        res = rule_R2(ctx, prj)
+        rule_R3(ctx, prj)
+        rule_R4(ctx, prj, res)
